@@ -343,6 +343,7 @@ public:
       c.gravity = r.chance(0.2);
       c.source_type = (int)r.below(6);
       c.feedback = c.source_type == 3 && r.chance(0.7);
+      c.source_log = (c.source_type == 2 || c.source_type >= 4) && r.chance(0.5);
       caproni_box = c.source_type == 5;
       c.snap_mode = (int)r.below(3);
       c.first_snapshot = r.chance(0.2) ? 3 : 0;
@@ -415,6 +416,7 @@ public:
           c.restart_midway && r.chance(0.5) ? (int)r.range(1, 6) : 0;
       c.source_type = (int)r.below(5);
       c.feedback = c.source_type == 3 && r.chance(0.5);
+      c.source_log = (c.source_type == 2 || c.source_type == 4) && r.chance(0.5);
       c.backups = (int)r.range(0, 3);
       c.threads = std::min(c.threads, 6);
       c.snap_mode = (int)r.below(3);
